@@ -659,6 +659,10 @@ def _source_faithful(ctx, visitor, rel):
             if isinstance(n, ast.IfExp) and isinstance(n.test, ast.Call) and isinstance(n.test.func, ast.Attribute) \
                     and isinstance(n.test.func.value, ast.Name) and n.test.func.value.id == ctxn and not n.test.args:
                 child = n.test.func.attr
+                if not child[0].islower() or not any(
+                        isinstance(x, ast.Call) and isinstance(x.func, ast.Attribute) and x.func.attr == child
+                        and isinstance(x.func.value, ast.Name) and x.func.value.id == ctxn for x in ast.walk(n.body)):
+                    continue        # not "the optional child if present": a token flag choosing between two forms
                 o = n.orelse
                 made_up = (isinstance(o, ast.Dict) and o.keys) or (isinstance(o, (ast.List, ast.Tuple, ast.Set)) and o.elts) \
                     or (isinstance(o, ast.Constant) and o.value not in (None, '', 0, False))
